@@ -205,3 +205,18 @@ package intdataplane
 //@   loop 2 invariant forall ip string :: setOf(members)[ip] ==> (fxWepHas(m, ip) || (exists id types.HostEndpointID :: visited[id] && (id in m.hepIPs) && setOf(m.hepIPs[id])[ip]))
 //@   loop 2 invariant forall ip string :: fxWepHas(m, ip) ==> setOf(members)[ip]
 //@   loop 2 invariant forall ip string, id types.HostEndpointID :: visited[id] && (id in m.hepIPs) && setOf(m.hepIPs[id])[ip] ==> setOf(members)[ip]
+
+//@ -- When the endpoint that owned an interface name goes away, the shadowed endpoint promoted in its place is the
+//@ -- PREFERRED one: among the shadowed endpoints claiming that interface name, the minimum of the strict total
+//@ -- order wlLess - so the winner does not depend on the order in which the table is walked.  (Stated as the
+//@ -- inductive invariant of the selection loop; ids are assumed to have a non-empty endpoint id, which the
+//@ -- loop uses as its "none yet" marker.)
+//@ spec macro emIdsValid(m *endpointManager) bool = forall k types.WorkloadEndpointID :: (k in m.shadowedWlEndpoints) ==> k.EndpointId != "" && m.shadowedWlEndpoints[k] != nil
+//@ func (*endpointManager).resolveWorkloadEndpoints
+//@   property C44
+//@   option safety off
+//@   option opaque wlLess
+//@   uses wlLess_transitive, wlLess_total, wlLess_irreflexive
+//@   requires m != nil
+//@   loop 3 invariant emIdsValid(m) && bestShadowedId.EndpointId != "" ==> visited[bestShadowedId] && (bestShadowedId in m.shadowedWlEndpoints) && m.shadowedWlEndpoints[bestShadowedId].Name == oldWorkload.Name
+//@   loop 3 invariant emIdsValid(m) ==> forall s types.WorkloadEndpointID :: visited[s] && (s in m.shadowedWlEndpoints) && m.shadowedWlEndpoints[s].Name == oldWorkload.Name ==> bestShadowedId.EndpointId != "" && (s == bestShadowedId || wlLess(bestShadowedId, s))
